@@ -68,7 +68,7 @@ def gen_form(rnd):
 
 
 def gen_program(rnd, nmods=None, cyclic=None, failing=None):
-    """module graph: {id: (parses, [stmts])}; stmts: ("def", x, v) ("req", form, m) ("fail",) ("log",)"""
+    """module graph: {id: (parses, [stmts])}; stmts: ("def", x, v) ("req", form, m) ("try", form, m, x) ("fail",) ("log",)"""
     n = nmods or rnd.randint(1, 5)
     cyclic = rnd.random() < 0.35 if cyclic is None else cyclic
     failing = rnd.random() < 0.4 if failing is None else failing
@@ -82,7 +82,11 @@ def gen_program(rnd, nmods=None, cyclic=None, failing=None):
             elif k < 0.9:
                 targets = [t for t in range(1, n + 1) if (cyclic or t > m)] or [6]
                 t = rnd.choice(targets + ([6] if rnd.random() < 0.08 else []))
-                body.append(("req", gen_form(rnd), t))
+                if rnd.random() < 0.3:
+                    # the module handles a failure of the require itself: def x = do require ..; 1 catch all 0 end
+                    body.append(("try", gen_form(rnd), t, rnd.choice(PUB + PRIV)))
+                else:
+                    body.append(("req", gen_form(rnd), t))
             elif failing and rnd.random() < 0.5:
                 body.append(("fail",))
         parses = not (failing and rnd.random() < 0.12)
@@ -99,6 +103,8 @@ def program_coq(prog):
                 st.append("MDef %s %s" % (zl(s[1]), zl(s[2])))
             elif s[0] == "req":
                 st.append("MReq %s %s" % (form_coq(s[1]), zl(s[2])))
+            elif s[0] == "try":
+                st.append("MTry %s %s %s" % (form_coq(s[1]), zl(s[2]), zl(s[3])))
             elif s[0] == "fail":
                 st.append("MFail")
             else:
@@ -117,6 +123,8 @@ def write_program(prog, d):
                 lines.append("def %s = %d;" % (vname(s[1]), s[2]))
             elif s[0] == "req":
                 lines.append(form_src(s[1], s[2]) + ";")
+            elif s[0] == "try":
+                lines.append("def %s = do %s; 1 catch all 0 end;" % (vname(s[3]), form_src(s[1], s[2])))
             elif s[0] == "fail":
                 lines.append("error 'boom';")
             else:
